@@ -202,7 +202,8 @@ void harness(void) { setup();
     if (envv[0] != NULL) { for (size_t i = 0; IN.e0[i]; i++) want[w++] = IN.e0[i];
         if (envv[1] != NULL) { want[w++] = ','; for (size_t i = 0; IN.e1[i]; i++) want[w++] = IN.e1[i]; } }
     want[w] = '\0';
-    V_ASSERT(r == (int)w && same(buf, want), "C12: env_all = all environment entries joined by ','");
+    if (w + 4 < BUFSZ) V_ASSERT(r == (int)w && same(buf, want), "C12: env_all = all environment entries joined by ','");
+    else V_ASSERT(r >= 0 && r < BUFSZ && strnlen(buf, BUFSZ) == (size_t)r, "C02: truncated env_all stays inside its buffer and reports its true length");
     V_WITNESS(); }
 #elif defined(DS_datetime)
 void harness(void) { setup(); snoopy_datasource_datetime(buf, BUFSZ, IN.arg); TERMINATED();
